@@ -889,6 +889,7 @@ def calibrate_double_ended_helper(
                 )
             )
             p_var[1 + 2 * nt + ix_sec[1:]] = out[1][2 * nt : 2 * nt + nx_sec - 1]
+            p_var[1 + 2 * nt + ix_sec[0]] = 0.0
         else:
             n_E_in_cal = split["ix_from_cal_match_to_glob"].size
 
@@ -917,6 +918,7 @@ def calibrate_double_ended_helper(
             p_var[1 + 2 * nt + split["ix_from_cal_match_to_glob"]] = out[1][
                 2 * nt : 2 * nt + n_E_in_cal
             ]
+            p_var[1 + 2 * nt + ix_sec[0]] = 0.0
 
         p_cov = np.diag(p_var).copy()
 
